@@ -754,7 +754,7 @@ def LATE_UNITS():
     # "the value of a product on a path depends only on that path and the product's terms": a product used as a CONTROL is
     # valued on its own terms too, whatever product is being priced (the contract lives with the control variates, c07)
     from contracts import c07
-    return [c07.ControlUnderlyings()]
+    return [c07.ControlUnderlyings(), c07.ControlReadsItsPath()]
 
 
 class PathDependentPayoffRepresentation(Lemma):
